@@ -15,6 +15,9 @@ from . import analysis
 rule("C11.a", "persisted attributes (written in __init__, not popped by the writer) are accepted by the constructor", floor=40)
 rule("C11.b", "attributes written outside __init__ (scratch state of set-up) are removed by the writer", floor=2)
 rule("C11.c", "every constructor parameter is persisted under its own name (stored from that parameter, or forwarded to super().__init__)", floor=60)
+rule("C11.l", "objects that are rebuilt by a JSON round trip are compared by value: two entries of self.nodes are 'the same node' when their "
+              "names agree - `==` / `!=` / `is` on the Node objects themselves is identity (Node defines no __eq__), true for a node passed twice and "
+              "false for the two equal nodes the loader creates: the loaded asset builds another problem", floor=0)
 rule("C11.k", "what a constructor keeps from a table is JSON-stable: a DataFrame given as parameter is stored as a dict of arrays / lists (column "
               "-> values: to_numpy(), to_dict(orient='list')) - not as to_dict() with its default orient, a dict of dicts keyed by the row labels: "
               "integer keys come back from JSON as strings, and the set-up, which addresses the rows by position, raises KeyError on the loaded "
@@ -221,7 +224,7 @@ def _projection(p, ci):
     return None
 
 
-@analysis("serialization", ["C11.a", "C11.b", "C11.c", "C11.d", "C11.e", "C11.f", "C11.g", "C20.k", "C06.j", "C05.l", "C02.g", "C16.j", "C11.k"])
+@analysis("serialization", ["C11.a", "C11.b", "C11.c", "C11.d", "C11.e", "C11.f", "C11.g", "C20.k", "C06.j", "C05.l", "C02.g", "C16.j", "C11.k", "C11.l"])
 def run(ctx):
     p = ctx.p
     ser, writer, reader = _find_hooks(ctx)
@@ -547,3 +550,23 @@ def run(ctx):
                            "KeyError(0) - an order book given as data frame can be optimised before saving and not after loading" % au.short(c, 50), node=c)
     if n_k == 0:
         ctx.ob("C11.k", "package", "tables kept by constructors", True, ok_detail="no constructor keeps DataFrame.to_dict()")
+
+
+    # =========================================================================== C11.l identity comparisons of nodes
+    node_eq = "__eq__" in (p.classes.get("Node").methods if p.classes.get("Node") is not None else {})
+    n_l = 0
+    for fnl in sorted(p.all_functions(), key=lambda f: f.qualname):
+        for x in au.walk_local(fnl.node, include_self=False):
+            if not (isinstance(x, ast.Compare) and len(x.ops) == 1 and isinstance(x.ops[0], (ast.Eq, ast.NotEq, ast.Is, ast.IsNot))):
+                continue
+            sides = [x.left, x.comparators[0]]
+            def is_node(e):
+                return isinstance(e, ast.Subscript) and isinstance(e.value, ast.Attribute) and e.value.attr == "nodes" and not isinstance(e.slice, ast.Slice)
+            if all(is_node(e) for e in sides):
+                n_l += 1
+                ctx.ob("C11.l", fnl, au.short(x, 70), node_eq and not isinstance(x.ops[0], (ast.Is, ast.IsNot)),
+                       "two Node objects are compared with `%s`: Node has no __eq__, so this is object identity. A storage given the same Node object for "
+                       "input and output is 'one node' before saving; after load_from_json each entry of nodes is a separate object with the same name "
+                       "and the comparison flips - c has 48 entries before saving and 96 after loading" % au.short(x, 50), node=x)
+    if n_l == 0:
+        ctx.ob("C11.l", "package", "comparisons between nodes", True, ok_detail="nodes are only compared through their names")
